@@ -265,17 +265,31 @@ func subEnum() mon.Sub {
 					}
 				}
 			}
-			// size limit: a frame that is otherwise valid in this state
+			// size limit: a frame that is otherwise valid in this state - a data frame (or continuation), and
+			// control frames, which inside a fragmented message take the reader's intermediate-control path
+			type lim struct {
+				op byte
+				l  int64
+			}
+			dataOp := byte(ref.OpBinary)
+			if frag {
+				dataOp = ref.OpCont
+			}
+			var lims []lim
 			for _, L := range []int64{1, 125, 126, 65536, 1 << 40} {
+				lims = append(lims, lim{dataOp, L})
+			}
+			for _, L := range []int64{2, 60, 125} {
+				lims = append(lims, lim{ref.OpPing, L}, lim{ref.OpPong, L}, lim{ref.OpClose, L})
+			}
+			for _, lm := range lims {
+				L := lm.l
 				for _, m := range []int64{L - 1, 1} {
 					if m <= 0 || m >= L || m < maxLen {
 						continue // the limit would already refuse a frame of the prefix
 					}
-					h := ref.Header{Fin: true, Op: ref.OpBinary, Length: L}
-					if frag {
-						h.Op = ref.OpCont
-					}
-					if !runOne(c, shapes, side, ext, bad{fmt.Sprintf("announce-%d", L), h, int(min(L, 32))}, c.I%2 == 0, m, true) {
+					h := ref.Header{Fin: true, Op: lm.op, Length: L}
+					if !runOne(c, shapes, side, ext, bad{fmt.Sprintf("announce-%x-%d", lm.op, L), h, int(min(L, 32))}, c.I%2 == 0, m, true) {
 						return
 					}
 				}
